@@ -84,6 +84,14 @@ namespace adept {
 	  throw index_out_of_bounds("Expression added to array with \"<<\" does not match size of previous objects on row"
 				    ADEPT_EXCEPTION_LOCATION);
 	}
+	// Check that the object fits in what remains of the array
+	for (int k = 0; k < E::rank; ++k) {
+	  if (coords_[k+(Rank-E::rank)] + xx.dimension(k)
+	      > size_[k+(Rank-E::rank)]) {
+	    throw index_out_of_bounds("Expression added to array with \"<<\" does not fit in the space remaining"
+				      ADEPT_EXCEPTION_LOCATION);
+	  }
+	}
 	// Add the object to the array and increment the final index
 	ExpressionSize<Rank> i_lhs(coords_);
 	ExpressionSize<E::rank> i_rhs(0);
